@@ -409,4 +409,35 @@ def ctlKids (ch : Nat → Bool) : Stmt → List Ev
   | .caseC _ _ _ list _ body => ctlEs ch list ++ ctlL ch body
   | .commC _ _ _ comm _ body => ctlL ch comm ++ ctlL ch body
 
+/-! ## passes over global value specs (`processGlobalValueSpecs`, `processGlobalFunctionLit`) -/
+
+/-! outermost function literals of an expression, in `ast.Inspect` order without descending into a literal -/
+mutual
+def outerG : GExpr → List GExpr
+  | .funcLit p e lb rb list => [.funcLit p e lb rb list]
+  | .call _ _ fn args => outerG fn ++ outerGs args
+  | .composite _ _ typ elts => outerGo typ ++ outerGs elts
+  | .keyValue _ _ k v => outerG k ++ outerG v
+  | .unary _ _ x => outerG x
+  | .structType _ _ fts => outerGs fts
+  | .other _ _ cs => outerGs cs
+def outerGo : Option GExpr → List GExpr
+  | none => []
+  | some e => outerG e
+def outerGs : List GExpr → List GExpr
+  | [] => []
+  | e :: es => outerG e ++ outerGs es
+end
+
+/-- the arm on each outermost literal, results in order (a `return false` inside the arm ends the arm only) -/
+def litPassOn (acts : List Act) : List GExpr → Option (List Item)
+  | [] => some []
+  | g :: r =>
+    match evalL ⟨.expr g, []⟩ acts, litPassOn acts r with
+    | some (is, _), some js => some (is ++ js)
+    | _, _ => none
+
+def litPass (w : LitPass) (specs : List GSpec) : Option (List Item) :=
+  litPassOn w.arm (outerGs (specValues specs))
+
 end GoatSpec.WalkSpec
